@@ -569,11 +569,14 @@ pub fn fork_workers_opt(
         .into_iter()
         .map(|(w, pid, out_path, cur_path)| Live { w, pid, out_path, cur_path, status: 0, done: false, timed_out: false, stalled: false, collateral: false, last_cpu: 0, last_change: Instant::now() })
         .collect();
-    let cpu_ticks = |pid: i32| -> Option<u64> {
+    let cpu_ticks = |pid: i32| -> Option<(u64, bool)> {
         let t = std::fs::read_to_string(format!("/proc/{}/stat", pid)).ok()?;
         let rest = &t[t.rfind(')')? + 2..];
         let f: Vec<&str> = rest.split_whitespace().collect();
-        Some(f.get(11)?.parse::<u64>().ok()? + f.get(12)?.parse::<u64>().ok()?)
+        // a worker that is runnable but starved of CPU (R) or waiting for memory / disk (D) is
+        // not blocked for good: only an interruptible sleep (S: futex wait) counts as no progress
+        let sleeping = f.first().map_or(false, |st| *st == "S");
+        Some((f.get(11)?.parse::<u64>().ok()? + f.get(12)?.parse::<u64>().ok()?, sleeping))
     };
     let mut polls = 0u64;
     let poll_every = (stall_ms / 50).clamp(1, 20);
@@ -614,8 +617,8 @@ pub fn fork_workers_opt(
                 l.timed_out = true;
                 kill = true;
             } else if polls % poll_every == 0 {
-                if let Some(c) = cpu_ticks(l.pid) {
-                    if c != l.last_cpu {
+                if let Some((c, sleeping)) = cpu_ticks(l.pid) {
+                    if c != l.last_cpu || !sleeping {
                         l.last_cpu = c;
                         l.last_change = Instant::now();
                     } else if l.last_change.elapsed().as_millis() as u64 >= stall_ms {
